@@ -17,7 +17,9 @@ for line in open("/tmp/mut/confirm.ndjson"):
     d = json.loads(line)
     conf[d["dir"].rstrip("/")] = d
 CT = {"/tmp/seed/out/C13/m1": "seed_c13_m1", "/tmp/seed/out/C13/m2": "seed_c13_m2", "/tmp/seed/out/C13/m3": "seed_c13_m3", "/tmp/seed/out/C11/m3": "seed_demo",
-      "/tmp/seed/out2/C13/m2": "seed_demo", "/tmp/seed/out2/C13/m3": "seed_demo"}
+      "/tmp/seed/out2/C13/m2": "seed_demo", "/tmp/seed/out2/C13/m3": "seed_demo",
+      "/tmp/seed/out3/C13/m1": "seed_demo", "/tmp/seed/out3/C13/m3": "seed_demo",
+      "/tmp/seed/out3/C18/m1": "seed_demo_m1 (package lrlex)", "/tmp/seed/out3/C18/m2": "seed_demo_m2 (package lrlex)", "/tmp/seed/out3/C18/m3": "seed_demo_m3 (package lrlex)"}
 head = subprocess.check_output(["git", "-C", "/repo", "rev-parse", "HEAD"], text=True).strip()
 if not os.path.isdir(WT):
     os.makedirs(os.path.dirname(WT), exist_ok=True)
@@ -53,7 +55,7 @@ for d in sorted(glob.glob(SRC + "/C*/m[0-9]")):
     os.makedirs(o + "/demonstration")
     open(o + "/patch.diff", "w").write(diff)
     for f in os.listdir(d):
-        if f.endswith((".rs", ".test")) or f == "RUN.md":
+        if f.endswith((".rs", ".test", ".sh")) or f == "RUN.md":
             shutil.copy(os.path.join(d, f), o + "/demonstration/" + f)
     am = json.load(open(d + "/meta.json"))
     ran = ["git apply patch.diff in a scratch worktree of /repo at %s" % c.get("head", head)[:12],
